@@ -182,11 +182,12 @@ Fixpoint go_key_eq (a b : val) : bool :=
   | _, _ => false
   end.
 
-(* m[key] = value on a builtin map: the first key written stays, the value is replaced *)
+(* m[key] = value on a builtin map with interface keys: the value is replaced and so is the
+   stored key (the runtime updates keys of types where equal keys can differ: +0 / -0) *)
 Fixpoint gomap_assign (es : list (val * val)) (k v : val) : list (val * val) :=
   match es with
   | [] => [(k, v)]
-  | (k', v') :: t => if go_key_eq k' k then (k', v) :: t else (k', v') :: gomap_assign t k v
+  | (k', v') :: t => if go_key_eq k' k then (k, v) :: t else (k', v') :: gomap_assign t k v
   end.
 
 (* ---- canonical dump ------------------------------------------------------ *)
